@@ -112,17 +112,23 @@ Definition xml_quote (v : list Z) : Z := if count 39 v <? count 34 v then 39 els
 (* attribute value normalisation of the xml lexer: literal TAB/LF/CR inside quotes become a space *)
 Definition xnorm (c : Z) : Z := if (c =? 9) || (c =? 10) || (c =? 13) then 32 else c.
 
-(* ---- a class of inputs on which ReplaceEntities is idempotent and preserves the decoding ---------------
+(* ---- a class of inputs on which ReplaceEntities returns the decoded text --------------------------------
    text without '&' interleaved with any number of terminated decimal / hexadecimal references (leading
-   zeros allowed) to ASCII bytes other than NUL and '&'.  [clean b o]: b is such an input, o its decoding. *)
+   zeros allowed) to ASCII bytes other than NUL and '&', where a reference to a letter, digit, '#' or ';' is
+   not directly preceded by 34 or more bytes of [0-9a-zA-Z#] (the look-behind of replaceEntities then leaves
+   it alone: "too far to tell").  [clean_from acc b o]: acc is the output so far, reversed; o the decoding. *)
 Definition dec_val (ds : list Z) : Z := fold_left (fun a c => a * 10 + (c - 48)) ds 0.
 Definition hex_num (hs : list Z) : Z := fold_left (fun a c => a * 16 + hex_val c) hs 0.
-Inductive clean : list Z -> list Z -> Prop :=
-| CL_nil : clean [] []
-| CL_text : forall c l o, c <> 38 -> clean l o -> clean (c :: l) (c :: o)
-| CL_dec : forall ds l o, ds <> [] -> forallb is_digit ds = true ->
-    0 < dec_val ds < 128 -> dec_val ds <> 38 -> clean l o ->
-    clean (38 :: 35 :: ds ++ 59 :: l) (dec_val ds :: o)
-| CL_hex : forall hs l o, hs <> [] -> forallb is_hex hs = true ->
-    0 < hex_num hs < 128 -> hex_num hs <> 38 -> clean l o ->
-    clean (38 :: 35 :: 120 :: hs ++ 59 :: l) (hex_num hs :: o).
+Definition near_ok (acc : list Z) (v : Z) : Prop := cont_start v = false \/ look_behind acc 1 = false.
+Inductive clean_from : list Z -> list Z -> list Z -> Prop :=
+| CL_nil : forall acc, clean_from acc [] []
+| CL_text : forall acc c l o, c <> 38 -> clean_from (c :: acc) l o -> clean_from acc (c :: l) (c :: o)
+| CL_dec : forall acc ds l o, ds <> [] -> forallb is_digit ds = true ->
+    0 < dec_val ds < 128 -> dec_val ds <> 38 -> near_ok acc (dec_val ds) ->
+    clean_from (dec_val ds :: acc) l o ->
+    clean_from acc (38 :: 35 :: ds ++ 59 :: l) (dec_val ds :: o)
+| CL_hex : forall acc hs l o, hs <> [] -> forallb is_hex hs = true ->
+    0 < hex_num hs < 128 -> hex_num hs <> 38 -> near_ok acc (hex_num hs) ->
+    clean_from (hex_num hs :: acc) l o ->
+    clean_from acc (38 :: 35 :: 120 :: hs ++ 59 :: l) (hex_num hs :: o).
+Definition clean (b o : list Z) : Prop := clean_from [] b o.
